@@ -34,7 +34,12 @@ def build(F):
                                                     messages=[dict(name='Deep', fields=[dict(name='x', type='int32')])])],
                                      enums=[dict(name='Kind', values=['KIND_UNSPECIFIED', 'INTRO', 'BODY'])])]
         book_msg['enums'] = [dict(name='Binding', values=['BINDING_UNSPECIFIED', 'HARD', 'SOFT'])]
-        book_fields += [dict(name='chapters', type='Book.Chapter', repeated=True), dict(name='binding', type='enum:Book.Binding')]
+        book_fields += [dict(name='chapters', type='Book.Chapter', repeated=True), dict(name='binding', type='enum:Book.Binding'),
+                        # references from the top-level message to types two and three levels inside itself
+                        dict(name='first_note', type='Book.Chapter.Note'), dict(name='deepest', type='Book.Chapter.Note.Deep'),
+                        dict(name='chapter_kind', type='enum:Book.Chapter.Kind')]
+        # ... and from a sibling top-level message into the nest
+        shelf_fields += [dict(name='pinned_note', type='Book.Chapter.Note')]
     if 'f_map' in F:
         book_fields += [dict(name='labels', type='map:string,string'), dict(name='counts', type='map:int32,int64'),
                         dict(name='flags', type='map:bool,double'), dict(name='related', type='map:string,Shelf')]
